@@ -182,17 +182,19 @@ def check_case(prim, fall, order, close_at, lag=0):
 # -- the SDK's own fallback fetcher: PVPowerFormula over a PV meter and two inverters ------
 
 
-def run_generated(prim, inv_b, order, close_at, lag=0):
+def run_generated(prim, inv_b, order, close_at, lag=0, kind="pv"):
     """grid(1) - meter(2) - PV meter(3) - {PV inverters 4, 5}.  The generated PV formula is `#3` with the
     fallback formula `#4 + #5` (a real FallbackFormulaMetricFetcher, started lazily).  prim: per-timestamp
     'v' / None for the PV meter; inv_b: per-timestamp 'v' / None for inverter 5 (inverter 4 is always valid);
-    lag: the meter samples are delivered `lag` steps behind the inverter streams (which keep streaming)."""
+    lag: the meter samples are delivered `lag` steps behind the inverter streams (which keep streaming).
+    kind "grid-reactive": grid(1) - meter(3) - {inverters 4, 5} and the generated grid reactive-power formula `#3`
+    with fallback `#4 + #5`; every component also streams *other* metrics with values 5000 higher."""
     from frequenz.client.microgrid import Component, ComponentCategory, ComponentMetricId, Connection, InverterType
     from frequenz.quantities import Power
 
     from frequenz.sdk._internal._channels import ChannelRegistry
     from frequenz.sdk.microgrid._data_sourcing import ComponentMetricRequest
-    from frequenz.sdk.timeseries.formula_engine._formula_generators import PVPowerFormula
+    from frequenz.sdk.timeseries.formula_engine._formula_generators import GridReactivePowerFormula, PVPowerFormula
     from frequenz.sdk.timeseries.formula_engine._formula_generators._formula_generator import FormulaGeneratorConfig
 
     from .. import fakes
@@ -200,12 +202,19 @@ def run_generated(prim, inv_b, order, close_at, lag=0):
     comps = {Component(1, ComponentCategory.GRID), Component(2, ComponentCategory.METER), Component(3, ComponentCategory.METER),
              Component(4, ComponentCategory.INVERTER, InverterType.SOLAR), Component(5, ComponentCategory.INVERTER, InverterType.SOLAR)}
     conns = {Connection(1, 2), Connection(2, 3), Connection(3, 4), Connection(3, 5)}
+    metric = "ACTIVE_POWER"
+    gen_cls = PVPowerFormula
+    if kind == "grid-reactive":
+        comps = {c for c in comps if c.component_id != 2}
+        conns = {Connection(1, 3), Connection(3, 4), Connection(3, 5)}
+        metric = "REACTIVE_POWER"
+        gen_cls = GridReactivePowerFormula
     L = len(prim)
     out = []
     with virtual_loop() as loop, fakes.fake_microgrid(comps, conns):
         reg = ChannelRegistry(name="verif")
         subs = Broadcast(name="subscriptions")
-        engine = PVPowerFormula("verif-ns", reg, subs.new_sender(), FormulaGeneratorConfig(allow_fallback=True)).generate()
+        engine = gen_cls("verif-ns", reg, subs.new_sender(), FormulaGeneratorConfig(allow_fallback=True)).generate()
         rx = engine.new_receiver()
         loop.settle()
         text = str(engine)
@@ -216,7 +225,9 @@ def run_generated(prim, inv_b, order, close_at, lag=0):
 
         # the fallback formula lives in its own namespace, known only once it is generated: find the channels by name
         def senders_for(cid):
-            return [reg.get_or_create(Sample[Quantity], key).new_sender() for key in list(reg._channels) if f"component_id={cid}," in key]
+            # (sender, offset): a stream of another metric than the formula's carries values 5000 higher
+            return [(reg.get_or_create(Sample[Quantity], key).new_sender(), 0.0 if f"metric_id={metric}," in key else 5000.0)
+                    for key in list(reg._channels) if f"component_id={cid}," in key]
 
         stalled = False
         try:
@@ -237,13 +248,13 @@ def run_generated(prim, inv_b, order, close_at, lag=0):
                             if "component_id=3," in key:
                                 loop.create_task(reg.get_or_create(Sample[Quantity], key).close())
                     elif e[0] == "p":
-                        for sdr in senders_for(3):
-                            F.push(sdr, S(t, 1.0 + t if e[1] == "v" else None))
+                        for sdr, off in senders_for(3):
+                            F.push(sdr, S(t, off + 1.0 + t if e[1] == "v" else None))
                     else:
-                        for sdr in senders_for(4):
-                            F.push(sdr, S(step, 40.0 + step))
-                        for sdr in senders_for(5):
-                            F.push(sdr, S(step, 60.0 + step if (inv_b[step] if step < L else "v") == "v" else None))
+                        for sdr, off in senders_for(4):
+                            F.push(sdr, S(step, off + 40.0 + step))
+                        for sdr, off in senders_for(5):
+                            F.push(sdr, S(step, off + 60.0 + step if (inv_b[step] if step < L else "v") == "v" else None))
                     loop.settle()
                 while len(rx):
                     s_ = rx.consume()
@@ -301,8 +312,9 @@ def gen_shard(args) -> Acc:
     for prim in itertools.product(["v", None], repeat=L):
         for inv_b in ((["v"] * L), (["v", None] * L)[:L]):
             for order in ("pf", "fp"):
-                for close_at, lag in [(None, 0)] + [(c, 0) for c in range(1, L)] + [(None, 1), (None, 2)]:
-                    out, text, stalled = run_generated(list(prim), inv_b, order, close_at, lag)
+                for close_at, lag, kind in ([(None, 0, "pv")] + [(c, 0, "pv") for c in range(1, L)] + [(None, 1, "pv"), (None, 2, "pv")]
+                                            + [(None, 0, "grid-reactive"), (2, 0, "grid-reactive")]):
+                    out, text, stalled = run_generated(list(prim), inv_b, order, close_at, lag, kind)
                     viol = oracle_generated(list(prim), inv_b, order, close_at, out, lag)
                     if stalled:
                         viol.append(("execution_terminates", {}))
@@ -312,13 +324,14 @@ def gen_shard(args) -> Acc:
                     acc.clauses["generated_formula_output_equals_primary_else_fallback"] += 1
                     if any(x is None for x in prim) or close_at is not None:
                         acc.nontrivial += 1
-                    acc.state(repr(("gen", prim, tuple(inv_b), order, close_at, lag)))
+                    acc.state(repr(("gen", kind, prim, tuple(inv_b), order, close_at, lag)))
                     acc.outcome(f"generated outputs={len(out)}")
                     if acc.evaluations % 300 == 1:
                         acc.sample({"driver": "generated", "formula": text, "primary": list(prim), "order": order, "primary_closed_at": close_at, "outputs": out})
                     for clause, detail in viol:
                         acc.violation(Violation(clause, {"driver": "generated", "primary": list(prim), "inverter_b": inv_b, "order": order,
-                                                          "close_at": close_at, "lag": lag}, detail, classes(prim, None, order, close_at)))
+                                                          "close_at": close_at, "lag": lag, "kind": kind}, detail,
+                                                classes(prim, None, order, close_at)))
     return acc
 
 
@@ -370,7 +383,8 @@ def run(tier: str, seed: int, workers: int):
         "(all 3^L sequences), fallback per timestamp valid / None (all 2^L), fallback sample sent before or after the primary's, "
         "primary stream closed at every position, and the formula's own inputs delivered 0, 1 or 2 steps behind the live fallback stream; non-trivial = some primary sample invalid or the stream closed; plus the generated "
         "PV formula of a PV meter with two inverters (real FallbackFormulaMetricFetcher and registry): all 2^L meter sequences x "
-        "inverter-missing pattern x order x (close position | meter samples 1 or 2 steps behind the inverter streams)",
+        "inverter-missing pattern x order x (close position | meter samples 1 or 2 steps behind the inverter streams), and the generated "
+        "grid reactive-power formula of a grid meter in front of two inverters (streams of other metrics carry different values)",
         "assumptions": [
             "start-up delay made precise: the fallback is started at the first invalid primary timestamp t0; the output for t0, for "
             "the round in which a close is noticed, and for timestamps before the first sample the fallback stream delivers after "
@@ -385,7 +399,8 @@ def run(tier: str, seed: int, workers: int):
 
 def replay(case: dict):
     if case.get("driver") == "generated":
-        out, _, _ = run_generated(case["primary"], case["inverter_b"], case["order"], case["close_at"], case.get("lag", 0))
+        out, _, _ = run_generated(case["primary"], case["inverter_b"], case["order"], case["close_at"], case.get("lag", 0),
+                                  case.get("kind", "pv"))
         return oracle_generated(case["primary"], case["inverter_b"], case["order"], case["close_at"], out, case.get("lag", 0))
     _, v = check_case(case["primary"], case["fallback"], case["order"], case["close_at"], case.get("lag", 0))
     return v
